@@ -32,20 +32,20 @@ inductive Kind
 deriving DecidableEq, Repr
 
 def expected : List ((String × String × String) × Kind) := [
-  (("grammar", "*Grammar.CalculateCanTerminate", "g.VnSet"), .emptinessOnly),
-  (("lalr", "*LALR1.CaclIncludes", "lalr.DRSet"), .setOnly),
-  (("lalr", "*LALR1.CalcAllReadRelations", "lalr.DRSet"), .setOnly),
-  (("lalr", "*LALR1.CalcFollowSet", "lalr.ReadSet"), .setOnly),
-  (("lalr", "*LALR1.CalcLookbacks", "lalr.DRSet"), .setOnly),
-  (("lalr", "*LALR1.CalcReadSet", "lalr.DRSet"), .setOnly),
-  (("lalr", "*LALR1.CheckAndResolveConflict", "action_set"), .disjointWrites),
-  (("lalr", "*LALR1.GenTable", "set"), .disjointWrites),
-  (("lalr", "*LALR1.ShowDrSet", "lalr.DRSet"), .debugPrint),
-  (("lalr", "*LALR1.ShowFollowSet", "lalr.FollowSet"), .debugPrint),
-  (("lalr", "*LALR1.ShowLookAheadSet", "lalr.LookAheadSet"), .debugPrint),
-  (("lalr", "*LALR1.ShowReadSet", "lalr.ReadSet"), .debugPrint),
-  (("parser", "sortedIds", "m"), .sortedKeys),
-  (("utils", "PackTable", "nonZeroPos"), .disjointWrites)
+  (("grammar", "*Grammar.CalculateCanTerminate", "field VnSet"), .emptinessOnly),
+  (("lalr", "*LALR1.CaclIncludes", "field DRSet"), .setOnly),
+  (("lalr", "*LALR1.CalcAllReadRelations", "field DRSet"), .setOnly),
+  (("lalr", "*LALR1.CalcFollowSet", "field ReadSet"), .setOnly),
+  (("lalr", "*LALR1.CalcLookbacks", "field DRSet"), .setOnly),
+  (("lalr", "*LALR1.CalcReadSet", "field DRSet"), .setOnly),
+  (("lalr", "*LALR1.CheckAndResolveConflict", "map[int][]*lalr.Action"), .disjointWrites),
+  (("lalr", "*LALR1.GenTable", "map[int][]*lalr.Action"), .disjointWrites),
+  (("lalr", "*LALR1.ShowDrSet", "field DRSet"), .debugPrint),
+  (("lalr", "*LALR1.ShowFollowSet", "field FollowSet"), .debugPrint),
+  (("lalr", "*LALR1.ShowLookAheadSet", "field LookAheadSet"), .debugPrint),
+  (("lalr", "*LALR1.ShowReadSet", "field ReadSet"), .debugPrint),
+  (("parser", "sortedIds", "map[string]*parser.Idendity"), .sortedKeys),
+  (("utils", "PackTable", "map[int][]int"), .disjointWrites)
 ]
 
 /-- every map loop of the current sources is one of the reviewed ones -/
